@@ -3,7 +3,7 @@
    The orthogonality premise is exactly what np.linalg.eig violated on degenerate spectra (repaired by the Schur basis);
    it is monitored numerically on every run.  Over any field. *)
 From mathcomp Require Import all_ssreflect all_algebra.
-From QV Require Import Knill IsoClose.
+From QV Require Import Knill IsoClose IsoPair.
 Set Implicit Arguments. Unset Strict Implicit. Unset Printing Implicit Defensive.
 Import GRing.Theory.
 Local Open Scope ring_scope.
@@ -26,3 +26,20 @@ Theorem C03_knill_factor : forall (R : comRingType) (n : nat) (P Pinv : 'M[R]_n)
   P *m (1%:M + c *: delta_mx z z) *m Pinv = 1%:M + c *: (col z P *m row z Pinv).
 Proof. move=> R n P Pinv z c H. exact: knill_factor. Qed.
 Print Assumptions C03_knill_factor.
+
+(* column-by-column scheme, the zeroing step: the one-qubit gate of isometry._unitary for the pair (c1, c2) = nrm (p1, p2) with
+   |p1|^2 + |p2|^2 = 1 has rows (conj p1, conj p2) and (-p2, p1) (basis = 0; swapped for basis = 1): it maps the pair to (nrm, 0) *)
+Theorem C03_ccd_pair_gate : forall (F : fieldType) (conj : {rmorphism F -> F}) (p1 p2 nrm : F),
+  p1 * conj p1 + p2 * conj p2 = 1 ->
+  u00 conj p1 * (nrm * p1) + u01 conj p2 * (nrm * p2) = nrm /\ u10 p2 * (nrm * p1) + u11 p1 * (nrm * p2) = 0.
+Proof. move=> F conj p1 p2 nrm H. exact: pair_to_first. Qed.
+Print Assumptions C03_ccd_pair_gate.
+
+Theorem C03_ccd_pair_unitary : forall (F : fieldType) (conj : {rmorphism F -> F}), (forall x, conj (conj x) = x) ->
+  forall p1 p2 : F, p1 * conj p1 + p2 * conj p2 = 1 ->
+  [/\ u00 conj p1 * conj (u00 conj p1) + u01 conj p2 * conj (u01 conj p2) = 1,
+      u00 conj p1 * conj (u10 p2) + u01 conj p2 * conj (u11 p1) = 0,
+      u10 p2 * conj (u00 conj p1) + u11 p1 * conj (u01 conj p2) = 0 &
+      u10 p2 * conj (u10 p2) + u11 p1 * conj (u11 p1) = 1].
+Proof. move=> F conj K p1 p2 H. exact: pair_unitary_rows. Qed.
+Print Assumptions C03_ccd_pair_unitary.
